@@ -134,10 +134,10 @@ static void c14_type(Context& cx)
                     c14_call<T>(cx, tg, e, xs, binary ? ys : nullptr, imm, "extreme value among ordinary companions");
                 }
             }
-            // (b) float32: strided sweep of all bit patterns for the functions that contain loops (thorough: all)
+            // (b) float32: strided sweep of all bit patterns for the functions that contain loops (thorough: every 31st)
             if (sizeof(T) == 4 && !binary && !has_imm)
             {
-                const uint64_t stride = thorough ? (loops ? 1 : 64) : (loops ? 1021 : 65521);
+                const uint64_t stride = thorough ? (loops ? 31 : 2039) : (loops ? 1021 : 65521);
                 const uint64_t phase = mix64(cx.opt.seed ^ hash_str(op)) % stride;
                 for (uint64_t u = phase; u < (1ull << 32); u += stride * n)
                 {
